@@ -165,6 +165,8 @@ def as_millis (d : Duration) : Nat := d / 1000000
 def keys (m : HashMap κ ν) : List κ := m.map (·.1)
 def chain (a b : List α) : List α := a ++ b
 def map (l : List α) (f : α → β) : List β := l.map f
+/-- `Option::map` (units whose only `.map(..)` receivers are options select it through `method_map`) -/
+def opt_map (o : Option α) (f : α → β) : Option β := o.map f
 def collect (l : List α) : List α := l
 /-- `set.insert(x);` / `set.extend(iter);` (a set is a duplicate-free list in insertion order; the translated code never
     relies on the order of a `HashSet`/`HashMap` — the real order is arbitrary: DESIGN §8) -/
